@@ -343,6 +343,10 @@ EXTRA_TEXT = {
            'implementations; repository-bundled workflows (tests/resources, '
            'rally-jobs) run with their real std actions under the '
            'differential oracle.',
+    'C03': ' The policy programs of C08 (delays, timers firing while '
+           'other events are in flight, retries, with-items and '
+           'sub-workflow tasks under policies) run under the same lifecycle '
+           'oracles with stop / pause+resume issued at every point.',
     'C04': ' First assignment of every join shape also over the '
            'DefaultScheduler, and there with overlapping transactions too '
            '(two refresh jobs of one join overtaking each other between the '
